@@ -48,3 +48,12 @@ package generator
 //@   requires GenOK(g) && builder.CtxOK(ctx) && source != nil && target != nil
 //@   assigns nothing
 //@   ensures !(source.Struct && target.Struct) ==> result == nil
+
+// ---- C09 ----
+//@ func validateMethods
+//@   props C09 C03
+//@   maprange 1 unordered-result signatures
+
+//@ func fileManager.renderFiles
+//@   props C09 C15
+//@   maprange 1 unordered-result names
